@@ -323,7 +323,11 @@ func cmdCheck(args []string) int {
 		return 2
 	}
 	t0 := time.Now()
-	evPath := filepath.Join(verifDir, "evidence", prop+".json")
+	evDir := "evidence"
+	if os.Getenv("VERIF_REPO") != "" {
+		evDir = "evidence_scratch" // runs against a scratch worktree never touch the registered evidence
+	}
+	evPath := filepath.Join(verifDir, evDir, prop+".json")
 	os.MkdirAll(filepath.Dir(evPath), 0o755)
 	os.Remove(evPath)
 
